@@ -6,9 +6,10 @@ CONSTANTS
   N = 3
   Hists = {1}
   MaxLen = 3
+  ForkMaxLen = 2
   Forks = {0, 1, 2}
   ForkCkpts = FALSE
-  PinOffsets = {0}
+  PinOffsets = {1}
   Roles = {"Reader"}
   SeekBeyond = TRUE
   StepModes <- MC_StepModesQuick
